@@ -15,7 +15,7 @@ P = {
     "tiers": tiers(
         quick=[{"name": "rand", "mode": "run", "count": 18000, "max_size": 100, "shards": 15},
                {"name": "enum", "mode": "enum", "count": 1000, "max_size": 1, "shards": 1}],
-        thorough=[{"name": "rand", "mode": "run", "count": 250000, "max_size": 100, "shards": 15, "max_seconds": 1500},
+        thorough=[{"name": "rand", "mode": "run", "count": 1500000, "max_size": 100, "shards": 15, "max_seconds": 1200},
                   {"name": "enum", "mode": "enum", "count": 1000, "max_size": 1, "shards": 1}],
     ),
 }
